@@ -94,3 +94,11 @@ Example ex_resolve : resolve_name [200] [(100, false); (101, true); (200, true)]
   /\ rt_name [200] [(100, false); (101, true); (200, true)] [(100, VNum 5); (101, VNum 1)] [(100, VNum 10)] 100 = Some (VNum 10)
   /\ NoDup (map fst [(100, false); (101, true); (200, true)]).
 Proof. repeat split; try reflexivity. repeat constructor; cbn; intuition; discriminate. Qed.
+
+(* parenthesised contents starting with "(" and keyof: ((x: T) => void)[] | (keyof T)[] | ((T))  *)
+Definition ex_paren : ty :=
+  TUnion (TUnion (TArr (TParen (TFn 0 [] [TParam false (PId 109) false true (TRef 103 [] [])] (TLit KVoid))))
+                 (TArr (TParen (TKeyof false (TRef 103 [] [])))))
+         (TParen (TParen (TRef 103 [] []))).
+Example ex_paren_ok : wfb ex_paren = true /\ skip_type LLowest fl0 (R false ex_paren [(KEq,false)]) = Ok [(KEq,false)].
+Proof. vm_compute. auto. Qed.
